@@ -471,6 +471,96 @@ def check_document_validity(rep, ctx):
     rep.add(Query("witness: validate has accepting and rejecting paths", "witness-hit" if n_ok and n_err else "witness-missed", "%d/%d" % (n_ok, n_err), 0, "mirsym"))
 
 
+def check_actor_slots(rep, ctx, tier):
+    """The shared state the poll loop writes and the proxy reads is an actor with one slot per (endpoint, kind). The obligations above name
+    its wrappers; this unit decides the slots themselves: after SetX(v) a GetX is answered with v, whatever other SetY came in between;
+    and each wrapper sends the variants of its own slot and returns the reply."""
+    w = ctx.method("KeyKeeperSharedState", "start_new")
+    body = w + "::{closure#0}"
+    if body not in ctx.idx.files or "KeyKeeperAction" not in ctx.enums:
+        rep.add(Query("state actor located", "inconclusive", "", 0, "mirsym", key="C09.slots"))
+        return
+    variants = ctx.enums["KeyKeeperAction"]
+    slots = [v[3:] for v in variants if v.startswith("Set") and ("Get" + v[3:]) in variants]
+    rep.functions_encoded.append(body + " [message sequences SetX,GetX and SetX,SetY,GetX for %d slots]" % len(slots))
+
+    def run(seq_names):
+        seq = [variants.index(nm) for nm in seq_names]
+
+        def hook(engine, ev):
+            if ev.kind == "await" and ev.callee.endswith("recv"):
+                n = sum(1 for e in engine.events if e.kind == "await" and e.callee.endswith("recv"))
+                if n <= len(seq):
+                    engine.require(ev.ret.discr() == 1)
+                    engine.require(ev.ret.child(("v", "Some", 0)).discr() == seq[n - 1])
+                else:
+                    engine.require(ev.ret.discr() == 0)
+        eng = ctx.engine(loop_bound=len(seq), max_paths=4000)
+        eng.auto_inline = ctx.new_function_auto()
+        eng.event_hook = hook
+        n = n_ok = 0
+        bad = ""
+        for r in eng.explore(body):
+            if r.status not in ("return", "cut"):
+                continue
+            rc = [e for e in r.events if e.kind == "await" and e.callee.endswith("recv")]
+            if len(rc) < len(seq):
+                continue
+            sends = [e for e in r.events if e.kind == "call" and re.search(r"oneshot::Sender.*::send$", e.callee) and r.events.index(e) > r.events.index(rc[len(seq) - 1])]
+            if not sends:
+                continue
+            n += 1
+            payload = rc[0].ret.child(("v", "Some", 0)).child(("v", seq_names[0], 0))
+            if same_origin(sends[0].rargs[1], payload):
+                n_ok += 1
+            else:
+                bad = "reply %r is not the payload of %s" % (sends[0].rargs[1], seq_names[0])
+        return n, n_ok, bad
+    others = slots if tier == "thorough" else None
+    for x in slots:
+        n, n_ok, bad = run(["Set" + x, "Get" + x])
+        st = "inconclusive" if n == 0 else ("holds" if n == n_ok else "violated")
+        rep.add(Query("state actor: after Set%s(v) the reply to Get%s is v" % (x, x), st, bad[:200] or "%d paths" % n, 0, "mirsym+z3", key="C09.slots:" + x, reproduced=None))
+        for y in slots:
+            if y == x:
+                continue
+            n, n_ok, bad = run(["Set" + x, "Set" + y, "Get" + x])
+            st = "inconclusive" if n == 0 else ("holds" if n == n_ok else "violated")
+            rep.add(Query("state actor: Set%s does not change what Get%s answers" % (y, x), st, bad[:200] or "%d paths" % n, 0, "mirsym+z3", key="C09.slots:%s/%s" % (x, y), reproduced=None))
+    # wrappers: the variants a wrapper sends belong to the slot its name says, a getter returns the reply, a setter sends its argument
+    def norm(t):
+        return re.sub(r"[^a-z0-9]", "", t.lower()).replace("current", "")
+    src = open(os.path.join(ctx.src, "proxy_agent/src/shared_state/key_keeper_wrapper.rs"), errors="replace").read()
+    names = re.findall(r"pub async fn ((?:get|set|update|clear)_\w+)\s*\(", src)
+    for fn in names:
+        try:
+            wp = ctx.method("KeyKeeperSharedState", fn) + "::{closure#0}"
+        except Inconclusive:
+            continue
+        if wp not in ctx.idx.files:
+            continue
+        eng = ctx.engine(loop_bound=2, max_paths=2000)
+        slot = norm(re.sub(r"^(get|set|update|clear)_", "", fn))
+        sent = set()
+        ok_reply = True
+        n = 0
+        for r in eng.explore(wp):
+            for e in r.events:
+                if e.kind == "await" and re.search(r"mpsc::Sender::send$", e.callee) and len(e.rargs) > 1 and isinstance(e.rargs[1], Agg) and e.rargs[1].variant:
+                    sent.add(e.rargs[1].variant)
+            if fn.startswith("get_") and r.status == "return" and isinstance(r.ret, Sym):
+                n += 1
+        direct = [v for v in sent if norm(re.sub(r"^(Get|Set)", "", v)) != slot]
+        if not sent:
+            continue            # a wrapper built on other wrappers (get_current_key_value -> get_key): its callees are checked
+        # key accessors go through GetKey/SetKey whatever part of the key they return
+        if direct and all(norm(re.sub(r"^(Get|Set)", "", v)) == "key" for v in direct) and "key" in slot:
+            direct = []
+        rep.add(Query("state wrapper %s talks to its own slot only (sends %s)" % (fn, sorted(sent)), "holds" if not direct else "violated", "variants of another slot: %s" % direct, 0, "mirsym",
+                      key="C09.slots.wrapper:" + fn, reproduced=None))
+    rep.bounds["state actor"] = "%d slots; sequences of 2 and 3 messages from an arbitrary actor state" % len(slots)
+
+
 def check(rep, tier, seed):
     ctx = Ctx("agent")
     rep.extra["mir_dump"] = {"cache_hit": ctx.dump.cache_hit, "tree_hash": ctx.dump.hash, "seconds": round(ctx.dump.seconds, 1)}
@@ -482,6 +572,7 @@ def check(rep, tier, seed):
     check_mode_getters(rep, ctx)
     check_state_string(rep, ctx)
     check_document_validity(rep, ctx)
+    check_actor_slots(rep, ctx, tier)
     rep.assumptions += ["the host's rule id identifies the rule content (rules are re-read only when the id changes)", "actor round-trips succeed in the convergence claim (a failed internal send is logged and retried by a later change)",
                         "Future::poll returns Ready"]
     rep.outside_claim += ["timing of polls", "rule items whose mode is none of enforce/audit/disabled (the state string calls them Disabled while get_*_mode returns the raw text)", "redirector map writes (C06)"]
